@@ -12,8 +12,14 @@ LEVEL = {
          'byte layout and alignment of realloc are not modelled (element granularity)'),
  'C03': ('Totality theorems: every 32-bit key against every invariant state gives acceptance of a stored entity, absence or the documented debug assertion, never the model\'s UB outcome; acceptance with a matching archetype id implies bit-identity; forged-handle stream aimed by dumps; known finding F3 stated as a _refuted theorem and reported',
          'memory safety is at element granularity of the model; std::alloc trusted'),
+ 'C04': ('Theorems that a value enters a cell exactly once (create), leaves only by being handed back (destroy, refused create_within_capacity) or by the storage drop, which takes every initialised cell exactly once, that every column holds exactly len cells and that clone makes one copy per cell; instrumented components with a live-identity registry (Drop/Clone, incl. a zero-sized Drop type) compared with the model\'s accounting after every op and at world drop',
+         'dropping is a count/identity abstraction in the model (lists cannot alias); leaks after a panicking Clone/Drop belong to C10'),
  'C05': ('Theorems over the model of bind_query_params/bind_one_of: for every world and every well-formed parameter list the emitted arms are exactly the archetypes satisfying the declarative reading, each parameter bound to its own column, ambiguity and no-match errors exactly as stated; the macro crate\'s own modules driven as a library on generated declarations and queries and compared with the model and with the declarative oracle; run-time half (find on an unmatched archetype returns None) through the storage harness',
          'the binding model is hand-written and tied by differential execution; rustc\'s handling of the emitted arms is exercised by the storage harness worlds only'),
+ 'C06': ('Theorems that one pass presents exactly len items, item i being the handle and row of dense position i, with pairwise distinct handles, and that Break returns from the single closure wrapping all archetype loops (translated); every iteration path of the implementation (five query macros, iter/iter_mut, slices, entities) compared with the model including Break at every ordinal',
+         'the query loops are modelled and tied by the correspondence; their inductive characterisation is not yet proved'),
+ 'C07': ('Storage-level theorems behind the reverse loop (positions below the removed one untouched, the relocated entity comes from the end, the destroyed handle is stored nowhere, the handed-out direct handle is current) plus the translated position of the version read; decision strings over {Continue, Break, ContinueDestroy, BreakDestroy, panic} on the implementation compared with the model and the specification oracle',
+         'the loop itself (World.iterd_arch) is modelled and tied by stream S6; its induction is not yet proved (partial)'),
  'C08': ('Freshness theorem from the ghost generation bound, checked-add overflow theorems over the translated version.rs, injectivity of key packing; histories crossing 2^32 through the preset hook',
          'wrapping_version reuse after 2^32-1 releases is the documented exception (C08_wrap_reissues)'),
  'C09': ('Theorems: accepted direct handle designates its dense position with the current version; accepted at issue; survives creates; rejected after any removal (version strictly changes); to_direct validates; the two repaired defects F1/F2 are pinned by translated code facts',
@@ -30,6 +36,10 @@ LEVEL = {
          'ARCHETYPE_ID/COMPONENT_ID constants and ecs_component_id! as emitted are compared for the harness worlds only'),
  'C16': ('Theorems: for every declaration and truth assignment the world data equals that of the erased declaration; disabled query parameters never exclude an archetype and binding restricted to enabled parameters equals binding of the erased query; cfg on OneOf is always an error; differential: every decorated input against its erased twin through the real macro code',
          'the cfg-probing macro_rules chain and rustc\'s own cfg evaluation are not modelled (the truth assignment is passed in)'),
+ 'C17': ('Theorems: create and destroy log exactly the handle concerned, once, in the right log; a failed or panicking destroy logs nothing (the push follows the overflow checks in the translated effect order); clear_events only clears; kernel-evaluated instances of the world-level iterator model with exact size_hint; events builds of the harness compared with the model at archetype and world level including size_hint before every next()',
+         'the general induction for the world-level iterator over n archetypes is not yet proved (instances only)'),
+ 'C19': ('Every theorem quantifies over cfg = (wrapping, events, debug) and over the number of columns; isolating theorems: events only adds logs, wrapping only differs at the overflow boundary, debug assertions change exactly one lookup case; streams re-run on events / wrapping_version / 32_components / release builds with the model switched to the same configuration',
+         'quick tier covers five of the sixteen feature x profile combinations, thorough all eight feature sets x two profiles'),
  'C14': ('Theorems over the bit-level codecs translated from entity.rs/index.rs/slot.rs on every run (all 2^32 keys, all ids, symbolic) plus differential runs of every conversion against the model',
          'the repr(transparent) reference transmutes are only sampled'),
 }
